@@ -142,6 +142,50 @@ def loops_over_local(fn, local):
     return out
 
 
+ORDER_SINK = re.compile(r"<impl \[.*\]>::(join|concat|first|last|get)$|::join$|::concat$|Join<.*>>::join$|Concat<.*>>::concat$|Vec::<T, A>::(pop|remove|swap_remove)$|"
+                        r"Debug>::fmt$|Argument::<'_>::new_debug|ops::Index<I>>::index$")
+
+
+def order_sinks(fn, local):
+    """calls that read a vector in its element order without a loop (join, concat, first/last, index, Debug formatting):
+    (block, callee) for every such call whose argument derives from `local` through borrows, derefs and moves"""
+    tainted = {local}
+    changed = True
+    stm = []
+    for bi, b in enumerate(fn["blocks"]):
+        for s_ in b.get("stmts", []):
+            stm.append((bi, s_))
+    calls = list(M.calls_in(fn))
+    while changed:
+        changed = False
+        for bi, s_ in stm:
+            if s_[0] != "assign":
+                continue
+            dst, rv = s_[1], s_[2]
+            src = None
+            if rv[0] == "use" and rv[1][0] in ("copy", "move"):
+                src = rv[1][1]["l"]
+            elif rv[0] in ("ref", "addr"):
+                src = rv[1]["l"]
+            elif rv[0] == "cast" and rv[-1] and isinstance(rv[-1], list) and rv[-1][0] in ("copy", "move"):
+                src = rv[-1][1]["l"]
+            if src in tainted and dst["l"] not in tainted:
+                tainted.add(dst["l"])
+                changed = True
+        for bi, t in calls:
+            name = t[1].get("def") or ""
+            if any(name.endswith(x) for x in THROUGH + ("Vec::<T, A>::as_slice", "Borrow<[T]>>::borrow", "AsRef<[T]>>::as_ref", "Index<I>>::index")) and t[2] \
+                    and t[2][0][0] in ("copy", "move") and t[2][0][1]["l"] in tainted and t[3]["l"] not in tainted and not name.endswith("Index<I>>::index"):
+                tainted.add(t[3]["l"])
+                changed = True
+    out = []
+    for bi, t in calls:
+        name = t[1].get("def") or ""
+        if ORDER_SINK.search(name) and any(a[0] in ("copy", "move") and a[1]["l"] in tainted for a in t[2]):
+            out.append((bi, name))
+    return out
+
+
 def sorted_before(fn, cfg, local, block):
     """a slice sort of `local` dominates `block`"""
     from cfgtools import Defs
@@ -325,6 +369,32 @@ def run(ctx, chk):
                         chk.violation("C19.R3", unit, "hash-order-output:collected-unsorted",
                                       f"{f['name']} collects a hash container into a vector and reports from it without sorting: the order is still the per-process random hash order",
                                       f"{file}:{line}")
+    # ... or read in element order without a loop (join, concat, first/last/index, Debug formatting), or collected into a text
+    for which in ("lib", "bin"):
+        for f in ctx.facts.mir(which)["fns"]:
+            unit = f["name"].split("::")[-1]
+            file = f["span"].rsplit(":", 2)[0]
+            for bi, t in M.calls_in(f):
+                d = t[1].get("inst") or t[1].get("def") or ""
+                if (COLLECT.search(t[1].get("def") or "") or "::collect::<" in d) and HASH_ITER_TY.search(d) and re.match(r"(std::string::|alloc::string::)?String$", t[3].get("ty", "")):
+                    nloops += 1
+                    chk.violation("C19.R3", unit, "hash-order-output:text-collected",
+                                  f"{f['name']} concatenates the elements of a hash container into a String in iteration order (per-process random)",
+                                  f"{file}:{f['blocks'][bi]['term']['line']}")
+            for local, cb in hash_ordered_vectors(f):
+                cfg = M.CFG(f)
+                for bi, name in order_sinks(f, local):
+                    nloops += 1
+                    line = f["blocks"][bi]["term"]["line"]
+                    sb = sorted_before(f, cfg, local, bi)
+                    if sb is True:
+                        chk.ok("C19.R3", f"{unit}@bb{bi}", "vector collected from a hash container is sorted before it is read in order")
+                    elif isinstance(sb, tuple):
+                        chk.undecided_("C19.R3", f"{unit}@bb{bi}", "sorted by a key or comparator before an order-sensitive read: totality not decided")
+                    else:
+                        chk.violation("C19.R3", unit, "hash-order-output:read-in-order-unsorted",
+                                      f"{f['name']} collects a hash container into a vector and reads it in element order ({name.split('::')[-1]}) without sorting: "
+                                      f"the resulting text/element differs from run to run", f"{file}:{line}")
     if nloops == 0:
         chk.ok("C19.R3", "all-functions", "no loop over a hash container in either crate", nontrivial=False)
     chk.extra["hash_loops"] = nloops
